@@ -1112,7 +1112,7 @@ func checkC09(P *Prog, r *Result) {
 	shareRule(P, r, checkC01, "C01/child-clean", nil, "C09/child-clean-any-order", 15)
 	shareRule(P, r, checkC07, "C07/reinit", func(o Obligation) bool {
 		return strings.Contains(o.Construct, "#zog/internals.SchemaCtx.") || strings.Contains(o.Construct, "#zog/internals.ZogIssue.")
-	}, "C09/no-carried-pooled-state", 10)
+	}, "C09/no-carried-pooled-state", 0)
 	_ = R
 }
 
